@@ -1,16 +1,20 @@
 """C06 - Inline caches are semantically transparent.
 
 Model: spec/objects/Shapes.tla (reference OrdinaryGet/Set/DefineOwnProperty/Delete/SetPrototypeOf/... over objects
-with ordered properties) + spec/objects/InlineCache.tla (implementation-shaped: shape identity, storage layout,
-access sites with <= 4 entries, hit/miss paths, invariant Transparent) + spec/objects/MCInlineCache.tla (catalogue
-of set-ups, free suffixes, emission).
+with ordered properties) + spec/objects/InlineCache.tla (implementation-shaped and predictive: shape identity,
+storage layout, access sites with <= 4 entries, hit/miss paths, boa's object graph with and without caches next to
+the reference graph; invariants Transparent, ShapeDenotes, Refines) + spec/objects/MCInlineCache.tla (catalogue of
+set-ups, free suffixes, emission).
 
-Binding (A): TLC enumerates every history (set-up prefix x free suffix in canonical form) and emits the reference
-observation of every operation, the predicted hit/miss of every access and the final reference object graph.  Each
-history is rendered to one JS scenario (one eval step per operation on one context; the access sites are functions
-that are called again and again, so the same inline cache is reused) and executed by hic with caches on, with
-caches off (cfg.ic_off) and - for a slice - with caches on under GC stress (harness/crates/hic).  Every trace must equal the reference
-trace.  Hit/miss counters per access are compared with the model's prediction as MODEL-DRIFT only.
+Binding (A): TLC enumerates every history (set-up prefix x free suffix in canonical form) and emits, per operation,
+the REFERENCE observation, the observations the implementation-shaped model predicts for the pinned tree with and
+without caches, the predicted hit/miss and the design flaw that fires; plus the final object graphs.  Each history
+is rendered to one JS scenario (one eval step per operation on one context; the access sites are functions that
+are called again and again, so the same inline cache is reused) and executed by harness/crates/hic with caches on,
+with caches off (cfg.ic_off) and - for a slice - with caches on under GC stress.  Every trace must equal the
+reference trace.  A history that fails is a KNOWN finding only if both traces are exactly the ones the pinned-tree
+model predicts (then the flaw that fires first is its signature); anything else is a VIOLATION (shrunk).
+Hit/miss counters per access are compared with the model's prediction as MODEL-DRIFT only.
 """
 import concurrent.futures
 import json
@@ -258,29 +262,19 @@ def js_op(op):
     raise vlib.ToolError("op kind " + kind)
 
 
+FN_MARK = 9999
+PANIC = ("PANIC",)
+
+
 def val(x):
-    return "u" if x == 0 else f"n:{x}"
+    return "u" if x == 0 else "o:Function" if x == FN_MARK else f"n:{x}"
 
 
 def b(x):
     return "b:true" if x else "b:false"
 
 
-def expected_steps(ops, exp, final):
-    out = [([], "value:u")]
-    for op, e in zip(ops, exp):
-        kind = op["op"]
-        if kind == "G":
-            out.append(([val(e["r"])], "value:u"))
-        elif kind == "N":
-            out.append(([val(e["r"])], "value:u") if e["ok"] else ([], "throw:o:Error:ReferenceError"))
-        elif kind == "S":
-            lines = [f"s:set n:{c['n']} n:{c['r']} n:{c['v']}" for c in e["calls"]]
-            out.append((lines, "value:u" if e["ok"] else "throw:o:Error:TypeError"))
-        elif kind in ("D", "X", "P"):
-            out.append(([b(e["ok"])], "value:u"))
-        else:
-            out.append((["b:true"], "value:u"))
+def dump_lines(final):
     lines = []
     for i, ob in enumerate(final):
         lines.append(f"s:obj n:{i + 1} n:{ob['proto']} {b(ob['ext'])}")
@@ -289,7 +283,30 @@ def expected_steps(ops, exp, final):
                 lines.append(f"s:acc s:{p['k']} n:{p['g']} n:{p['s']} {b(p['c'])}")
             else:
                 lines.append(f"s:data s:{p['k']} {val(p['v'])} {b(p['w'])} {b(p['c'])}")
-    out.append((lines, "value:u"))
+    return lines
+
+
+def expected_steps(ops, exp, final):
+    """The observable trace (one (print lines, completion) per eval step: prelude, operations, dump) that a list
+    of observations prescribes; ends with PANIC at the first observation with pan."""
+    out = [([], "value:u")]
+    for op, e in zip(ops, exp):
+        kind = op["op"]
+        if e.get("pan"):
+            out.append(PANIC)
+            return out
+        calls = [f"s:set n:{c['n']} n:{c['r']} {val(c['v'])}" for c in e["calls"]]
+        if kind == "G":
+            out.append((calls + [val(e["r"])], "value:u"))
+        elif kind == "N":
+            out.append((calls + [val(e["r"])], "value:u") if e["ok"] else ([], "throw:o:Error:ReferenceError"))
+        elif kind == "S":
+            out.append((calls, "value:u" if e["ok"] else "throw:o:Error:TypeError"))
+        elif kind in ("D", "X", "P"):
+            out.append(([b(e["ok"])], "value:u"))
+        else:
+            out.append((["b:true"], "value:u"))
+    out.append((dump_lines(final), "value:u"))
     return out
 
 
@@ -319,27 +336,28 @@ def run_parallel(binary, scenarios, jobs=8):
 
 
 def trace_of(run):
-    """observable trace of one run: list of (out, completion) or a panic marker"""
+    """observable trace of one run: (print lines, completion) per step; PANIC after the last completed step"""
+    t = [(s.get("out", []), s.get("c")) for s in run.get("steps", [])]
     if "panic" in run:
-        return ("PANIC", run["panic"])
-    return [(s.get("out", []), s.get("c")) for s in run["steps"]]
+        t.append(PANIC)
+    return t
+
+
+def norm(t):
+    return [x if x == PANIC else (list(x[0]), x[1]) for x in t]
 
 
 def classify(on, off, exp):
     """None if the property held, else the failure kind."""
-    on_p = isinstance(on, tuple)
-    off_p = isinstance(off, tuple)
-    if on_p and not off_p:
-        return "panic"
-    if off_p:
-        return "panic-uncached"
-    exp_l = [(list(a), c) for a, c in exp]
-    on_l = [(list(a), c) for a, c in on]
-    off_l = [(list(a), c) for a, c in off]
-    if on_l == exp_l and off_l == exp_l:
+    on, off, exp = norm(on), norm(off), norm(exp)
+    if on == exp and off == exp:
         return None
-    if on_l != off_l:
-        return "cached-differs" if off_l == exp_l else "cached-and-uncached-differ"
+    if PANIC in off:
+        return "panic-uncached"
+    if PANIC in on:
+        return "panic"
+    if on != off:
+        return "cached-differs" if off == exp else "cached-and-uncached-differ"
     return "both-differ-from-reference"
 
 
@@ -364,7 +382,7 @@ class Runner:
             if r is None:
                 raise vlib.ToolError("missing hic result")
             if "abort" in r:
-                runs = [{"panic": "process abort: " + str(r["abort"])}, {"steps": []}]
+                runs = [{"steps": [], "panic": "process abort: " + str(r["abort"])}, {"steps": []}]
             else:
                 runs = r["runs"]
             on = trace_of(runs[0])
@@ -376,9 +394,7 @@ class Runner:
                 if k2 is not None:
                     kind = "gc-" + k2
                     on = g
-            counters = None
-            if "steps" in runs[0]:
-                counters = [s.get("ic") for s in runs[0]["steps"]]
+            counters = [s.get("ic") for s in runs[0].get("steps", [])]
             out[key] = (kind, on, off, counters)
         return out
 
@@ -491,9 +507,22 @@ def shrink_all(runner, fails):
 # ----------------------------------------------------------------------------- the check
 
 TIERS = {
-    "quick": dict(cfgs=["MCInlineCache_quick.cfg"], sim=None, floor=300, gc_every=10),
-    "thorough": dict(cfgs=["MCInlineCache_thorough.cfg"], sim=("MCInlineCache_sim.cfg", 4000, 14), floor=5000,
-                     gc_every=10),
+    "quick": dict(cfgs=["MCInlineCache_quick.cfg"], sim=None, floor=300, gc_every=10,
+                  design=False),
+    "thorough": dict(cfgs=["MCInlineCache_thorough.cfg"],
+                     sim=("MCInlineCache_sim.cfg", 3000, 20), floor=5000, gc_every=10, design=True),
+}
+BASE_ACTIONS = ["GetHit", "GetMiss", "SetHit", "SetMiss", "Define", "Delete", "SetProto", "PreventExt", "Freeze"]
+for _t in TIERS.values():
+    _t["actions"] = BASE_ACTIONS
+
+# signatures of the known findings = the design flaw of the pinned tree (InlineCache.tla) that fires first in a
+# history whose cached and uncached traces are exactly the ones the model of the pinned tree predicts
+FLAWS = {
+    "F1": "F1 prototype-slot cache entry validated by the receiver's shape only",
+    "F2": "F2 unique shape keeps its identity on insert / attribute change",
+    "F3": "F3 cached store through an accessor without setter succeeds silently",
+    "F4": "F4 shared-shape rollback forgets attribute changes of other properties",
 }
 
 
@@ -509,118 +538,178 @@ def run(tier, replay=None):
     recs = []
     states = trans = 0
     cmds = []
+    # model gate: the emission configs also check TypeOK (well-formedness of the three graphs and of the sites),
+    # NoClobber and EsInv (ECMA-262 6.1.7.3 along every step of the reference graph) in every state
+    if conf["design"]:
+        # the mechanism model itself: repaired design verified, pinned design refuted (documentation of the flaws)
+        rf = vlib.run_tlc(MC, "MCInlineCache_fixed.cfg", workers=8, timeout=1500)
+        vlib.tlc_must_pass(rf, "MCInlineCache/fixed design (Transparent, ShapeDenotes, Refines, TraceEqual)")
+        rp = vlib.run_tlc(MC, "MCInlineCache_pinned.cfg", workers=4, timeout=1500)
+        if rp["ok"] or not rp["violation"] or "Invariant" not in rp["violation"]:
+            vlib.log(rp["raw_tail"][-1500:])
+            raise vlib.ToolError("TLC no longer refutes Transparent/ShapeDenotes on the model of the pinned design")
+        ck.cov["design"] = {"repaired_design_states": rf["distinct"], "repaired_design_invariants":
+                            "TypeOK NoClobber Transparent ShapeDenotes Refines TraceEqual hold",
+                            "pinned_design": rp["violation"]}
+        cmds += [rf["cmd"], rp["cmd"]]
+        vlib.log(f"[C06] design: repaired design verified ({rf['distinct']} states), pinned design refuted: {rp['violation']}")
     for cfg in conf["cfgs"]:
-        r = vlib.run_tlc(MC, cfg, workers=8, coverage=(tier == "thorough"), timeout=1500)
+        r = vlib.run_tlc(MC, cfg, workers=8, timeout=1700)
         vlib.tlc_must_pass(r, "MCInlineCache/" + cfg)
         states += r["distinct"]
         trans += r["states"]
         cmds.append(r["cmd"])
-        if tier == "thorough":
-            check_coverage(r["raw_tail"], ck)
         recs += [o for tag, o in r["tagged"] if tag == "REPLAY"]
+        vlib.log(f"[C06] TLC {cfg}: {r['distinct']} distinct states, {len(recs)} histories, {r['wall']:.0f}s")
     n_exh = len(recs)
     if conf["sim"]:
         cfg, num, depth = conf["sim"]
         r = vlib.run_tlc(MC, cfg, workers=1, simulate=num, depth=depth, tseed=vlib.seed(), timeout=900)
         vlib.tlc_must_pass(r, "MCInlineCache/" + cfg)
         cmds.append(r["cmd"])
-        sim = [o for tag, o in r["tagged"] if tag == "REPLAY"]
         seen = set()
-        for o in sim:
-            key = json.dumps(o["log"], sort_keys=True) + json.dumps(o["uq"])
-            if key not in seen:
+        for tag, o in r["tagged"]:
+            key = json.dumps([o["log"], o["uq"], o["glob"]], sort_keys=True)
+            if tag == "REPLAY" and key not in seen:
                 seen.add(key)
                 recs.append(o)
         ck.cov["simulated_histories"] = len(recs) - n_exh
+        vlib.log(f"[C06] TLC -simulate {cfg}: {len(recs) - n_exh} distinct histories, {r['wall']:.0f}s")
     if not recs:
         raise vlib.ToolError("TLC emitted no histories")
+    check_coverage(recs, ck, conf["actions"])
     ck.cov["checker_cmd"] = "; ".join(cmds)
 
-    # expectations from TLC; the Python mirror must agree on every history (it is only used by the shrinker)
-    items = []
+    # the three traces TLC prescribes / predicts; the Python mirror of the reference must agree on every
+    # history (it is only used by the shrinker)
+    items, pred = [], {}
     for i, rec in enumerate(recs):
         ops = ops_of(rec)
+        if any(o["op"] == "W" for o in ops):
+            raise vlib.ToolError("W operations need the extended renderer")
         exp = expected_steps(ops, [e["e"] for e in rec["log"]], rec["final"])
-        if exp != expect_for(ops):
-            raise vlib.ToolError(f"Python mirror of Shapes.tla disagrees with TLC on history {sig_text(ops, rec['uq'], 0)}")
-        items.append((str(i), ops, rec["uq"], rec.get("glob", 0), exp))
-    gc_slice = {str(i) for i in range(len(recs)) if i % conf["gc_every"] == vlib.seed() % conf["gc_every"]}
+        if norm(exp) != norm(expect_for(ops)):
+            raise vlib.ToolError(f"Python mirror of Shapes.tla disagrees with TLC on {sig_text(ops, rec['uq'], rec['glob'])}")
+        key = str(i)
+        items.append((key, ops, rec["uq"], rec["glob"], exp))
+        pred[key] = (norm(expected_steps(ops, [e["ce"] for e in rec["log"]], rec["cfinal"])),
+                     norm(expected_steps(ops, [e["ue"] for e in rec["log"]], rec["ufinal"])),
+                     next((e["tag"] for e in rec["log"] if e["tag"]), ""))
+    flawless = {k for k in pred if pred[k][0] == norm(items[int(k)][4]) and pred[k][1] == norm(items[int(k)][4])}
+    gc_slice = {k for k in flawless if int(k) % conf["gc_every"] == vlib.seed() % conf["gc_every"]}
     t0 = time.time()
     verdicts = runner.judge(items, gc_slice)
     vlib.log(f"[C06] {len(items)} histories replayed ({runner.replays} runs) in {time.time() - t0:.1f}s")
 
-    nontrivial = 0
-    hits_total = 0
+    nontrivial = hits_total = accesses = 0
     drift_examples = []
-    failing = []
+    unexplained = []
+    known = {}
+    flaw_not_observed = 0
     for (key, ops, uq, glob, exp), rec in zip(items, recs):
         kind, on, off, counters = verdicts[key]
+        p_on, p_off, tag = pred[key]
         if kind is not None:
-            failing.append((key, ops, uq, glob, exp, kind, on, off))
+            if kind.startswith("gc-") or not tag or norm(on) != p_on or norm(off) != p_off:
+                unexplained.append((key, ops, uq, glob, exp, kind, on, off))
+            else:
+                known.setdefault(tag, []).append((key, ops, uq, glob, exp, kind, on, off))
+            continue
+        if key not in flawless:
+            flaw_not_observed += 1       # the model of the pinned tree predicts a failure the code does not show
+            ck.drift += 1
+            if len(drift_examples) < 5:
+                drift_examples.append(f"{sig_text(ops, uq, glob)}: model predicts flaw {tag or '?'}, the engine agrees with the reference")
             continue
         # counters: step 0 is the prelude, step i the i-th operation
-        mutated = False
-        nt = False
+        mutated = nt = False
         for i, e in enumerate(rec["log"]):
-            c = counters[i + 1] if counters else None
-            if e["op"] in ("G", "S", "N"):
-                if c is not None:
-                    hits_total += c[0]
-                    if c[0] >= 1 and mutated:
-                        nt = True
-                    predicted = [1, 0] if e["hit"] else [0, 1]
-                    if c[:2] != predicted:
-                        ck.drift += 1
-                        if len(drift_examples) < 5:
-                            drift_examples.append(f"{sig_text(ops, uq, glob)} @op{i + 1}: model {'hit' if e['hit'] else 'miss'}, "
-                                                  f"counters hit/miss/store={c}")
+            c = counters[i + 1] if len(counters) > i + 1 else None
+            if e["op"] in ("G", "S", "N") and c is not None:
+                accesses += 1
+                hits_total += c[0]
+                if c[0] >= 1 and mutated:
+                    nt = True
+                if c[:2] != ([1, 0] if e["hit"] else [0, 1]):
+                    ck.drift += 1
+                    if len(drift_examples) < 5:
+                        drift_examples.append(f"{sig_text(ops, uq, glob)} @op{i + 1}: model {'hit' if e['hit'] else 'miss'}, "
+                                              f"counters hit/miss/store={c}")
             if i >= rec["npre"] and e["op"] not in ("G", "N"):
                 mutated = True
         if nt:
             nontrivial += 1
         if int(key) % 997 == 3:
-            ck.sample({"history": sig_text(ops, uq, glob), "expected": exp[1:], "counters": counters})
+            ck.sample({"history": sig_text(ops, uq, glob), "reference_trace": exp[1:], "ic_counters": counters[1:]})
     for d in drift_examples:
         vlib.log("MODEL-DRIFT: " + d)
 
-    # failures: confirm, shrink, report
-    if failing:
-        again = runner.judge([(f[0], f[1], f[2], f[3], f[4]) for f in failing])
-        for f in failing:
+    # known findings: explained step by step by the model of the pinned tree
+    for tag in sorted(known):
+        fs = known[tag]
+        key, ops, uq, glob, exp, kind, on, off = min(fs, key=lambda f: (len(f[1]), sig_text(f[1], f[2], f[3])))
+        for _ in fs:
+            ck.failure(FLAWS[tag], {"example": sig_text(ops, uq, glob), "kind": kind, "count": len(fs),
+                                    "program": [prelude(uq, glob)] + [js_op(o) for o in ops] + ["dump()"],
+                                    "reference": exp, "caches_on": on, "caches_off": off})
+    ck.cov["known_flaw_histories"] = {FLAWS[t]: len(known[t]) for t in sorted(known)}
+
+    # anything else: confirm, shrink, report
+    if unexplained:
+        again = runner.judge([(f[0], f[1], f[2], f[3], f[4]) for f in unexplained])
+        for f in unexplained:
             if again[f[0]][0] != f[5] and not f[5].startswith("gc-"):
                 raise vlib.ToolError(f"non-reproducible result on {sig_text(f[1], f[2], f[3])}: {f[5]} then {again[f[0]][0]}")
     t0 = time.time()
-    shrunk = shrink_all(runner, [(f[1], f[2], f[3], f[5][3:] if f[5].startswith("gc-") else f[5]) for f in failing])
-    vlib.log(f"[C06] {len(failing)} failing histories shrunk in {time.time() - t0:.1f}s ({runner.replays} runs so far)")
-    shrunk_cache = {}
-    detail_items = {}
-    for f, (s_ops, s_uq, s_glob) in zip(failing, shrunk):
+    todo = unexplained[:200]
+    shrunk = shrink_all(runner, [(f[1], f[2], f[3], f[5][3:] if f[5].startswith("gc-") else f[5]) for f in todo])
+    if unexplained:
+        vlib.log(f"[C06] {len(unexplained)} unexplained failing histories, {len(todo)} shrunk in {time.time() - t0:.1f}s")
+    by_sig = {}
+    for f, (s_ops, s_uq, s_glob) in zip(todo, shrunk):
         sig = f"{f[5]}: {sig_text(s_ops, s_uq, s_glob)}"
-        shrunk_cache[sig] = shrunk_cache.get(sig, 0) + 1
-        if sig not in detail_items:
-            detail_items[sig] = (f, s_ops, s_uq, s_glob)
-    if detail_items:
-        res = runner.judge([(sig, d[1], d[2], d[3], expect_for(d[1])) for sig, d in detail_items.items()])
-        for sig in sorted(detail_items):
-            f, s_ops, s_uq, s_glob = detail_items[sig]
+        by_sig.setdefault(sig, (f, s_ops, s_uq, s_glob))
+    if by_sig:
+        res = runner.judge([(sig, d[1], d[2], d[3], expect_for(d[1])) for sig, d in by_sig.items()])
+        for sig in sorted(by_sig):
+            f, s_ops, s_uq, s_glob = by_sig[sig]
             ck.failure(sig, {"history": sig_text(f[1], f[2], f[3]), "shrunk": sig_text(s_ops, s_uq, s_glob),
                              "program": [prelude(s_uq, s_glob)] + [js_op(o) for o in s_ops] + ["dump()"],
-                             "expected": expect_for(s_ops), "caches_on": res[sig][1], "caches_off": res[sig][2]})
+                             "reference": expect_for(s_ops), "caches_on": res[sig][1], "caches_off": res[sig][2],
+                             "model_prediction_for_original": {"caches_on": pred[f[0]][0], "caches_off": pred[f[0]][1]}})
     ck.cov.update(states=states, transitions=trans, traces_validated_against_impl=len(recs),
                   histories_exhaustive=n_exh, evaluations=runner.replays, distinct_nontrivial=nontrivial,
-                  cache_hits_observed=hits_total, failing_histories=len(failing),
-                  failing_signatures=shrunk_cache,
+                  accesses_compared_with_model=accesses, cache_hits_observed=hits_total,
+                  histories_gc_stress=len(gc_slice), unexplained_failures=len(unexplained),
+                  predicted_flaw_not_observed=flaw_not_observed,
                   rule="one replay per canonical history (set-up prefix x free suffix); each run with caches on, caches "
-                       "off and (one tenth) caches on under GC stress; all traces must equal TLC's reference trace "
-                       "operation by operation incl. the final object graph; non-trivial = a cache hit was observed "
-                       "(hook counter) at an access that follows a mutation of the free suffix")
+                       "off and (one tenth of the flawless ones) caches on under GC stress; all traces must equal TLC's "
+                       "reference trace operation by operation incl. the final object graph; non-trivial = a cache hit "
+                       "was observed (hook counter) at an access that follows a mutation of the free suffix")
     if nontrivial < conf["floor"]:
         raise vlib.ToolError(f"vacuity guard: only {nontrivial} histories with a cache hit after a mutation (floor {conf['floor']})")
     ck.assumptions += ["[[Enumerable]] is not modelled; accessor functions have no side effects besides reporting the call",
                        "hit/miss prediction of InlineCache.tla is compared as MODEL-DRIFT only",
-                       "ic_off makes InlineCache::get miss and InlineCache::set a no-op (hook in vm/inline_cache/mod.rs)"]
+                       "ic_off makes InlineCache::get miss and InlineCache::set a no-op (hook in vm/inline_cache/mod.rs)",
+                       "a failing history is a known finding only when caches-on and caches-off traces both equal the "
+                       "traces InlineCache.tla predicts for the pinned tree (flaws F1-F4)"]
     return ck.finish()
 
 
-def check_coverage(raw_tail, ck):
-    pass
+def check_coverage(recs, ck, required):
+    """Every action (code path) of the mechanism model must have been taken by the emitted behaviours.  (TLC's own
+    -coverage runs out of memory on the recursive operators of this spec, so the counts are taken from the logs
+    the model keeps.)"""
+    names = {"G": "Get", "N": "Name", "S": "Set"}
+    counts = {}
+    for rec in recs:
+        for e in rec["log"]:
+            if e["op"] in names:
+                a = names[e["op"]] + ("Hit" if e["hit"] else "Miss")
+            else:
+                a = {"D": "Define", "X": "Delete", "P": "SetProto", "E": "PreventExt", "F": "Freeze", "W": "Warm"}[e["op"]]
+            counts[a] = counts.get(a, 0) + 1
+    ck.cov["action_counts"] = counts
+    never = [a for a in required if counts.get(a, 0) == 0]
+    if never:
+        raise vlib.ToolError(f"actions of the mechanism model never taken: {never}")
